@@ -395,7 +395,12 @@ def facets_check(m, mp, kind, curved, bad, out):
     # exact measures on straight meshes
     if not curved:
         nn = REF[kind]['nn']
-        exact_vol = float(mesh_measure(kind, m.p[:, :int(m.t[:nn].max()) + 1], m.t[:nn]))
+        if kind == 'hex':
+            from ..meshops import Geo
+            gg = Geo('hex', m.p[:, :int(m.t[:nn].max()) + 1], m.t[:nn])
+            exact_vol = float(sum(gg.cell_measure(c) for c in range(nt)))      # exact trilinear volume (faces may be non-planar)
+        else:
+            exact_vol = float(mesh_measure(kind, m.p[:, :int(m.t[:nn].max()) + 1], m.t[:nn]))
         if abs(cellvol.sum() - exact_vol) > 1e-12 * (1 + exact_vol):
             bad('volume', f"sum |detDF| w = {cellvol.sum():.15g}, exact volume {exact_vol:.15g}")
         meas = (dg * Wf).sum(axis=1)
@@ -415,6 +420,8 @@ def facets_check(m, mp, kind, curved, bad, out):
             fv = facet_vertex_lists(kind, m)
             for j in range(nf):
                 P = [m.p[:, v] for v in fv[j]]
+                if len(P) == 4 and abs(np.linalg.det(np.array([P[1] - P[0], P[2] - P[0], P[3] - P[0]]))) > 1e-14:
+                    continue          # non-planar bilinear face: no closed-form measure here
                 exm = 0.0
                 for a in range(1, len(P) - 1):
                     exm += .5 * np.linalg.norm(np.cross(P[a] - P[0], P[a + 1] - P[0]))
